@@ -395,6 +395,34 @@ def rule_J(run, prog):
     # loop variables that run over a state table of the aggregate
     state_vars = {lp.target.id for lp in ast.walk(g.node) if isinstance(lp, ast.For) and isinstance(lp.target, ast.Name)
                   and any(isinstance(y, ast.Attribute) and y.attr in ("vibindices", "elinds") and norm(y.value) == ag for y in ast.walk(lp.iter))}
+    # (iii) the exciton correlation function is the sum over ALL ordered pairs of molecules: sum_kl w_k w_l C_kl.  Every
+    # accumulation of an off-diagonal term C_kl sits in two loops that both run over range(<number of molecules>); a
+    # triangular inner loop (range(k+1, N)) visits each unordered pair once and needs the factor 2
+    from ..loader import parents_map
+    pmg = parents_map(g.node)
+    accs = [st for st in walk_no_nested(g.node) if isinstance(st, ast.AugAssign) and any(
+        isinstance(c_, ast.Call) and call_name(c_) == "get_coft" for c_ in ast.walk(st.value))]
+    if not accs:
+        raise AnalysisError("_excitonic_coft: accumulation of the site correlation functions not found")
+    for st in accs:
+        cof = [c_ for c_ in ast.walk(st.value) if isinstance(c_, ast.Call) and call_name(c_) == "get_coft"][0]
+        a_, b_ = [norm(v) for v in cof.args[:2]]
+        if a_ == b_:
+            continue      # a diagonal term: one loop is enough
+        loops = []
+        node = st
+        while node is not None and node is not g.node:
+            p_ = pmg.get(node)
+            if isinstance(p_, ast.For) and isinstance(p_.target, ast.Name) and p_.target.id in (a_, b_):
+                loops.append(p_)
+            node = p_
+        full = len(loops) == 2 and all(isinstance(lp.iter, ast.Call) and call_name(lp.iter) == "range" and len(lp.iter.args) == 1
+                                       for lp in loops)
+        doubled = any(isinstance(y, ast.Constant) and y.value in (2, 2.0) for y in ast.walk(st.value))
+        run.obligation(rid, "AbsSpectrumCalculator._excitonic_coft", full or (len(loops) == 2 and doubled), key="all-ordered-pairs:" + norm(cof)[:30],
+                       message="_excitonic_coft accumulates the cross-correlation terms %s in loops that do not visit every ordered pair "
+                               "of molecules (%s) and without the factor 2: correlated baths of different molecules enter the line shape "
+                               "of a delocalised exciton at half weight" % (norm(cof), [norm(lp.iter) for lp in loops]), loc=g.loc(st))
     for x in rows:
         r = x.slice.elts[0]
         ok = (isinstance(r, ast.Name) and r.id in state_vars) or any(
